@@ -12,13 +12,19 @@ TRUSTED = [
     "Proofs/UnitsUseSpec.lean: the specification's reading of a composite string, UDA control -> deck item, and the "
     "exception lists in the theorem statements (udaOpen = [WCONINJE_RESV, WCONPROD_RESV, GCONINJE_RESV_MAX_RATE, WCONPROD_LIFT], the open findings; inputLacks = [Ymodule]; "
     "fieldPropsOpen / fieldPropsMismatchOpen are empty since fix 0d2fae2e6)",
+    "harness/units_quantities.cpp (round 5): the HAND-WRITTEN keyword item -> physical quantity table (126 items / 151 columns, "
+    "from the reference manual's item descriptions, not from the keyword JSON), the quantities' SI factors as decimal numbers, and "
+    "the positional keyword templates; Proofs/UnitsQuantSpec.lean: each quantity as a product/quotient of the named dimensions of "
+    "Proofs/UnitsSpec.lean.  These ARE the statement of item_quantities_match; the two writings of the factors (C++ numbers, Lean "
+    "composition) are compared by the correspondence (units.quant_q), positional templates vs named table by property mode",
     "modelled, not verified: Summary.cpp mul_unit/div_unit (anonymous namespace) are tied by the translator only",
     "harness/units.cpp + lib/vlib.py differ; model driver (compiled Lean)",
     "modelled, not verified: IEEE rounding (theorems are exact over Rat / any field of characteristic 0; the Float run "
     "of the same expressions is compared bit for bit, and the real doubles are checked against the exact rationals "
     "within the rounding bound k*u*mag derived from each expression); keyword -> dimension annotations are taken "
-    "from the JSON (set equality with the compiled parser is checked, the per-item assignment is exercised by the "
-    "deck-level property run only)",
+    "from the JSON (set and per-item equality with the compiled parser are checked by the correspondence); that an annotation is "
+    "the RIGHT physical unit is proved for the 126 items of the hand-written table only (item_quantities_match) — the other "
+    "~1000 dimensioned items of the keyword JSON have no independent statement of what they should be",
 ]
 
 
@@ -32,7 +38,7 @@ def run(ctx):
     ctx.stage_translate(["units"])
     if not ctx.stage_build_opm():
         return ctx.finish(trusted_base=TRUSTED)
-    ok, exe, out = vlib.build_harness("units")
+    ok, exe, out = vlib.build_harness("units", extra_src=[os.path.join(vlib.VERIF, "harness", "units_quantities.cpp")])
     if not ok:
         ctx.tie_broken("harness", "units harness does not compile: " + out[-2000:])
         return ctx.finish(trusted_base=TRUSTED)
